@@ -20,6 +20,11 @@
 //   A  equiv only, for ALL name/mass assignments (2 names x 2 masses per vertex)
 //   D  one structure X against every other structure Y of a universe: if the multisets of
 //      (name,mass) differ, isStructureEquivalent must be false (both directions)
+//   H  reuse history on ONE BeadStructure: beads/bonds added in stages, after every stage one query out of
+//      {isSingleStructure, isStructureEquivalent (vs fresh / self / earlier content), breakIntoStructures, copy};
+//      oracle: reused object == fresh object with the current content (stale caches show here)
+//   T  reuse history on ONE tools::Graph: pairs/triples of {findStructureId, Dist exploration, decouple,
+//      reduce+expand, singleNetwork}; each answer == answer on a fresh graph, by-value calls leave the graph alone
 //   M  breakIntoSimpleMotifs on connected graphs: beads partitioned, every bond either inside
 //      exactly one simple motif or recorded exactly once in the connector (lossless)
 #include <algorithm>
@@ -74,6 +79,8 @@ struct Case {
   Xf x;
   Base g2;          // D (explicit pair) only
   char scope = 0;   // D enumeration: '3' universe n<=3, '4' universe n<=4, 'S' same graph
+  std::vector<int> cuts;  // H: positions in the construction event list after which a query is made (a final query follows the last event)
+  std::string q;          // H: one query letter per cut + final (S,E,B,C);  T: operation letters (F,X,Y,D,R,N) applied to ONE Graph object
 };
 
 static Base fromMask(int n, unsigned mask) {
@@ -116,7 +123,8 @@ static std::string casestr(const Case &c) {
     return "D;n=" + std::to_string(c.g.n) + ";e=" + estr(c.g.e) + ";a=" + c.g.attr + ";n2=" + std::to_string(c.g2.n) +
            ";e2=" + estr(c.g2.e) + ";a2=" + c.g2.attr;
   return std::string(1, c.kind) + ";n=" + std::to_string(c.g.n) + ";e=" + estr(c.g.e) + ";a=" + c.g.attr +
-         ";p=" + vstr(c.x.perm) + ";ids=" + std::to_string(c.x.ids) + ";eo=" + vstr(c.x.eo) + ";vo=" + std::to_string(c.x.vo);
+         ";p=" + vstr(c.x.perm) + ";ids=" + std::to_string(c.x.ids) + ";eo=" + vstr(c.x.eo) + ";vo=" + std::to_string(c.x.vo) +
+         (c.kind == 'H' ? ";cuts=" + vstr(c.cuts) + ";q=" + c.q : c.kind == 'T' ? ";q=" + c.q : "");
 }
 static Case parsecase(const std::string &s) {
   Case c;
@@ -134,6 +142,8 @@ static Case parsecase(const std::string &s) {
     c.x.ids = atoi(m["ids"].c_str());
     c.x.eo = parseV(m["eo"]);
     c.x.vo = atoi(m["vo"].c_str());
+    c.cuts = parseV(m["cuts"]);
+    c.q = m["q"];
   }
   return c;
 }
@@ -286,7 +296,7 @@ static void checkPartition(const char *api, const Inst &I, const Ref &R,
   if ((int)parts.size() != R.ncomp) FAIL(std::string(api) + "-part-count", std::to_string(parts.size()) + " parts for " + std::to_string(R.ncomp) + " components");
 }
 
-struct Summary { std::string sid; int ncomp = 0, nred = 0; bool single = false; int dupedges = 0; };
+struct Summary { std::string sid; int ncomp = 0, nred = 0; bool single = false; int dupedges = 0, leak = 0; };
 
 static void checkDist(const Graph &g, const Inst &I, const Ref &R) {
   for (int s = 0; s < R.n; s++) {
@@ -306,7 +316,7 @@ static void checkDist(const Graph &g, const Inst &I, const Ref &R) {
     }
   }
 }
-static void checkDecouple(const Graph &g, const Inst &I, const Ref &R) {
+static void checkDecouple(const Graph &g, const Inst &I, const Ref &R, const std::string &pre = "") {
   std::vector<Graph> subs = decoupleIsolatedSubGraphs(g);
   std::vector<std::pair<std::vector<Index>, std::vector<EP>>> parts;
   for (Graph &s : subs) {
@@ -314,9 +324,9 @@ static void checkDecouple(const Graph &g, const Inst &I, const Ref &R) {
     for (Edge &e : s.getEdges()) es.push_back(ep(e));
     parts.push_back({s.getVertices(), es});
   }
-  checkPartition("decouple", I, R, parts);
+  checkPartition((pre + "decouple").c_str(), I, R, parts);
 }
-static void checkReduce(const Graph &g, const Inst &I, const Ref &R, Summary &S) {
+static void checkReduce(const Graph &g, const Inst &I, const Ref &R, Summary &S, const std::string &pre = "") {
   ReducedGraph rg = reduceGraph(g);
   S.nred = (int)rg.getEdges().size();
   Graph ex = rg.expandGraph();
@@ -325,13 +335,13 @@ static void checkReduce(const Graph &g, const Inst &I, const Ref &R, Summary &S)
   std::map<EP, int> es;
   for (Edge &e : ex.getEdges()) es[ep(e)]++;
   for (Index v : I.vset)
-    if (!vs.count(v)) FAIL("reduce-expand-lost-vertex", "vertex " + std::to_string(v) + " missing after reduceGraph+expandGraph");
+    if (!vs.count(v)) FAIL(pre + "reduce-expand-lost-vertex", "vertex " + std::to_string(v) + " missing after reduceGraph+expandGraph");
   for (Index v : vs)
-    if (!I.vset.count(v)) FAIL("reduce-expand-extra-vertex", "vertex " + std::to_string(v) + " appeared after reduceGraph+expandGraph");
+    if (!I.vset.count(v)) FAIL(pre + "reduce-expand-extra-vertex", "vertex " + std::to_string(v) + " appeared after reduceGraph+expandGraph");
   for (auto &e : I.eset)
-    if (!es.count(e)) FAIL("reduce-expand-lost-edge", "edge " + epstr(e) + " missing after reduceGraph+expandGraph");
+    if (!es.count(e)) FAIL(pre + "reduce-expand-lost-edge", "edge " + epstr(e) + " missing after reduceGraph+expandGraph");
   for (auto &kv : es) {
-    if (!I.eset.count(kv.first)) FAIL("reduce-expand-extra-edge", "edge " + epstr(kv.first) + " appeared after reduceGraph+expandGraph");
+    if (!I.eset.count(kv.first)) FAIL(pre + "reduce-expand-extra-edge", "edge " + epstr(kv.first) + " appeared after reduceGraph+expandGraph");
     if (kv.second > 1) S.dupedges++;  // same edge SET; multiplicity is only counted (the statement speaks of sets)
   }
 }
@@ -446,6 +456,174 @@ static void checkSimpleMotifs(const Inst &I, const Ref &R, Summary &S) {
   S.ncomp = k;
 }
 
+// ---- H: reuse histories on ONE BeadStructure: beads/bonds are added in stages, a query is made after every stage;
+//         oracle: reused object == fresh object built from the current content (and the reference model)
+struct Ev { bool bead; int v; IP e; };
+static std::vector<Ev> events(const Inst &I) {  // grow vertex by vertex: bead, then its bonds to beads already present
+  std::vector<Ev> ev;
+  std::set<int> have;
+  std::vector<char> done(I.e.size(), 0);
+  for (int v : I.vorder) {
+    ev.push_back({true, v, {0, 0}});
+    have.insert(v);
+    for (size_t k = 0; k < I.e.size(); k++)
+      if (!done[k] && have.count(I.e[k].first) && have.count(I.e[k].second)) { ev.push_back({false, 0, I.e[k]}); done[k] = 1; }
+  }
+  return ev;
+}
+// content after the first c events as a base graph (vertices numbered in order of appearance) + its presentation
+static void partial(const Inst &I, const std::vector<Ev> &ev, size_t c, Base &pb, Inst &PI) {
+  std::map<int, int> idx;
+  pb = Base(); PI = Inst();
+  for (size_t k = 0; k < c; k++) {
+    if (ev[k].bead) {
+      int i = (int)idx.size();
+      idx[ev[k].v] = i;
+      pb.attr += I.attr[ev[k].v];
+      PI.id.push_back(I.id[ev[k].v]);
+      PI.vorder.push_back(i);
+      PI.vset.insert(I.id[ev[k].v]);
+    } else {
+      int a = idx[ev[k].e.first], b = idx[ev[k].e.second];
+      pb.e.push_back({std::min(a, b), std::max(a, b)});
+      PI.e.push_back({a, b});
+      PI.eset.insert({std::min(PI.id[a], PI.id[b]), std::max(PI.id[a], PI.id[b])});
+    }
+  }
+  pb.n = (int)idx.size();
+  PI.attr = pb.attr;
+}
+static bool differ(BeadStructure &x, BeadStructure &y);
+static void checkHistory(const Case &c, Summary &S) {
+  Inst I = present(c.g, c.x);
+  std::vector<Ev> ev = events(I);
+  std::vector<int> cuts = c.cuts;
+  cuts.push_back((int)ev.size());
+  if (c.q.size() != cuts.size()) throw std::runtime_error("harness: bad history case");
+  BeadStructure H;
+  size_t pos = 0;
+  bool havePrev = false, haveCopy = false;
+  Inst prevI, copyI;
+  std::string prevMs, copyMs;
+  BeadStructure copyH;
+  for (size_t st = 0; st < cuts.size(); st++) {
+    for (; pos < (size_t)cuts[st] && pos < ev.size(); pos++) {
+      if (ev[pos].bead) {
+        int d = I.attr[ev[pos].v] - '0';
+        H.AddBead(TB{I.id[ev[pos].v], MASSES[(d >> 1) & 1], NAMES[d & 1]});
+      } else if (pos % 2) H.ConnectBeads(I.id[ev[pos].e.second], I.id[ev[pos].e.first]);
+      else H.ConnectBeads(I.id[ev[pos].e.first], I.id[ev[pos].e.second]);
+    }
+    Base pb; Inst PI;
+    partial(I, ev, pos, pb, PI);
+    Ref R(pb);
+    std::string ms = multiset(pb.attr), at = " (query " + std::to_string(st + 1) + " '" + c.q[st] + "' after " + std::to_string(pos) + " construction events)";
+    if (haveCopy) {  // a copy taken at an earlier stage must not follow the edits of the original
+      BeadStructure F = mkBS(copyI);
+      if (!copyH.isStructureEquivalent(F) || !F.isStructureEquivalent(copyH)) FAIL("reuse-copy-changed-by-edit-of-original", "an earlier copy no longer equals a fresh structure with the content it was copied from" + at);
+      if (copyMs != ms && !differ(copyH, H)) FAIL("reuse-copy-vs-edited-original-accepted", "an earlier copy is reported equivalent to the original after beads were added to the original" + at);
+      haveCopy = false;
+    }
+    bool expectSingle = R.n > 0 && R.connected && !R.isolated;
+    switch (c.q[st]) {
+      case 'S':
+        for (int rep = 0; rep < 2; rep++)
+          if (H.isSingleStructure() != expectSingle) FAIL("reuse-beadstructure-single", std::string("isSingleStructure() = ") + (expectSingle ? "false" : "true") + " on a reused structure" + at);
+        S.sid += expectSingle ? "S1" : "S0";
+        break;
+      case 'E': {
+        BeadStructure F = mkBS(PI);
+        if (!H.isStructureEquivalent(F) || !F.isStructureEquivalent(H)) FAIL("reuse-equiv-fresh-rejected", "a reused structure is not equivalent to a fresh structure with the same content" + at);
+        if (!H.isStructureEquivalent(H)) FAIL("reuse-equiv-not-reflexive", "a reused structure is not equivalent to itself" + at);
+        if (havePrev && prevMs != ms) {
+          BeadStructure Fp = mkBS(prevI);
+          if (!differ(H, Fp)) FAIL("reuse-equiv-stale-accepted", "after adding beads the structure is still equivalent to a fresh structure with its EARLIER content (multisets " + prevMs + " vs " + ms + ")" + at);
+        }
+        S.sid += "E";
+        break;
+      }
+      case 'B': {
+        std::vector<BeadStructure> st2 = breakIntoStructures(H);
+        std::vector<std::pair<std::vector<Index>, std::vector<EP>>> parts;
+        for (BeadStructure &b : st2) {
+          std::vector<EP> es;
+          for (Edge &e : b.getGraph().getEdges()) es.push_back(ep(e));
+          parts.push_back({b.getBeadIds(), es});
+        }
+        checkPartition("reuse-break-structures", PI, R, parts);
+        S.sid += "B" + std::to_string(parts.size());
+        break;
+      }
+      case 'C':
+        copyH = H;
+        if (!copyH.isStructureEquivalent(H) || !H.isStructureEquivalent(copyH)) FAIL("reuse-copy-rejected", "a copy of a reused structure is not equivalent to it" + at);
+        haveCopy = true; copyI = PI; copyMs = ms;
+        S.sid += "C";
+        break;
+      default: throw std::runtime_error("harness: bad query letter");
+    }
+    havePrev = true; prevI = PI; prevMs = ms;
+  }
+}
+// ---- T: several operations applied to ONE tools::Graph object; every answer must equal the answer on a fresh graph
+static void checkToolsHistory(const Case &c, Summary &S) {
+  Inst I = present(c.g, c.x);
+  Ref R(c.g);
+  Graph g = mkGraph(I);
+  Graph f = g;
+  const std::string freshId = findStructureId<GraphDistVisitor>(f);
+  int step = 0;
+  bool foreignLabels = false;  // a Dist exploration left labels on the graph; on a DISCONNECTED graph the vertices it cannot reach
+                               // keep older labels, and what findStructureId makes of such node contents is not specified
+  for (char op : c.q) {
+    step++;
+    std::string at = " (operation " + std::to_string(step) + " '" + op + "' of " + c.q + " on the same Graph object)";
+    std::string before = g.getId();
+    switch (op) {
+      case 'F': {
+        std::string sid = findStructureId<GraphDistVisitor>(g);
+        if (sid != freshId) {
+          if (R.connected || !foreignLabels) FAIL("reuse-structure-id-differs", "findStructureId = '" + sid + "', on a fresh graph '" + freshId + "'" + at);
+          S.leak++;  // only counted: stale Dist labels of unreachable components are node content
+        }
+        break;
+      }
+      case 'X': case 'Y': {
+        int s = op == 'X' ? 0 : R.n - 1;
+        GraphDistVisitor v;
+        v.setStartingVertex(I.id[s]);
+        exploreGraph(g, v);
+        foreignLabels = true;
+        for (int t = 0; t < R.n; t++) {
+          if (R.hop[s][t] < 0) continue;
+          GraphNode nd = g.getNode(I.id[t]);
+          Index d;
+          try { d = nd.getInt("Dist"); } catch (const std::invalid_argument &) { FAIL("reuse-dist-label-missing", "reachable vertex " + std::to_string(I.id[t]) + " has no Dist label" + at); }
+          if (d != R.hop[s][t]) FAIL("reuse-dist-label-wrong", "start " + std::to_string(I.id[s]) + ": vertex " + std::to_string(I.id[t]) + " labelled Dist=" + std::to_string(d) + ", hops " + std::to_string(R.hop[s][t]) + at);
+        }
+        break;
+      }
+      case 'D': checkDecouple(g, I, R, "reuse-"); break;
+      case 'R': checkReduce(g, I, R, S, "reuse-"); break;
+      case 'N': {
+        Graph_BF_Visitor bf;
+        bf.setStartingVertex(I.id[0]);
+        bool expect = R.connected && !R.isolated;
+        if (singleNetwork(g, bf) != expect) FAIL("reuse-single-network", std::string("singleNetwork = ") + (expect ? "false" : "true") + at);
+        break;
+      }
+      default: throw std::runtime_error("harness: bad operation letter");
+    }
+    if ((op == 'D' || op == 'R' || op == 'N') && g.getId() != before) FAIL("reuse-input-graph-modified", "node contents of the caller's graph changed" + at);
+    std::set<Index> vs;
+    for (Index v : g.getVertices()) vs.insert(v);
+    std::set<EP> es;
+    for (Edge &e : g.getEdges()) es.insert(ep(e));
+    if (vs != I.vset || es != I.eset) FAIL("reuse-graph-structure-modified", "vertex or edge set of the graph object changed" + at);
+  }
+  S.sid = "T" + c.q + "|" + freshId + (S.leak ? " labelleak=1" : "");
+}
+
 // ---- D: different (name,mass) multisets must be reported different
 struct DEntry { Base b; std::string ms; BeadStructure bs; };
 struct Universe { std::vector<DEntry> u; std::map<std::string, size_t> index; };
@@ -525,6 +703,14 @@ static bsx::Outcome run(const Case &c) {
       } else if (c.kind == 'A') {
         stage = "equiv"; checkEquiv(c.g, I, R, S, true);
         o.extra = "id=" + S.sid;
+        o.cls = bsx::fnv(S.sid);
+      } else if (c.kind == 'H') {
+        stage = "reuse-history"; checkHistory(c, S);
+        o.extra = "history " + S.sid;
+        o.cls = bsx::fnv("H" + S.sid);
+      } else if (c.kind == 'T') {
+        stage = "reuse-tools"; checkToolsHistory(c, S);
+        o.extra = S.sid;
         o.cls = bsx::fnv(S.sid);
       } else if (c.kind == 'M') {
         stage = "simple-motifs"; checkSimpleMotifs(I, R, S);
@@ -825,7 +1011,46 @@ int main(int argc, char **argv) {
       push(c);
     }
   }
-  famcount["M"] = gi - g0;
+  famcount["M"] = gi - g0; g0 = gi;
+  // ---- H / T: reuse histories.  bases: every graph on 1..4 vertices + 8 graphs on 5..6 vertices (4 of them disconnected)
+  {
+    std::vector<Base> bases;
+    for (int n = 1; n <= 4; n++)
+      for (unsigned mask = 0; mask < (1u << (n * (n - 1) / 2)); mask++) bases.push_back(fromMask(n, mask));
+    auto mkb = [&](int n, std::vector<IP> e) { Base b; b.n = n; std::sort(e.begin(), e.end()); b.e = e; b.attr = std::string(n, '0'); bases.push_back(b); };
+    mkb(5, {{0, 1}, {0, 2}, {1, 2}, {3, 4}});                  // triangle + dimer
+    mkb(5, {{0, 1}, {0, 2}, {0, 3}, {0, 4}});                  // star
+    mkb(5, {{0, 1}, {0, 2}, {1, 2}, {1, 3}, {2, 3}, {3, 4}});  // fused triangles + tail
+    mkb(6, {{0, 1}, {0, 3}, {1, 2}, {2, 3}, {4, 5}});          // ring4 + dimer
+    mkb(6, {{0, 1}, {0, 2}, {1, 2}, {3, 4}, {3, 5}, {4, 5}});  // two triangles
+    mkb(6, {{0, 1}, {0, 3}, {1, 2}, {2, 3}, {3, 4}, {4, 5}});  // ring4 + tail
+    mkb(6, {{0, 1}, {0, 2}, {0, 3}});                          // star + 2 isolated
+    mkb(6, {{0, 1}, {0, 3}, {1, 2}, {1, 4}, {2, 5}, {3, 4}, {4, 5}});  // ladder 2x3
+    const std::string Q = "SEBC", OPS = "FXYDRN";
+    for (size_t bi = 0; bi < bases.size(); bi++) {
+      Base b = bases[bi];
+      auto perms = fixedPerms(b.n, 4);
+      auto eos = edgeOrders((int)b.e.size(), false);
+      for (int pr = 0; pr < (thorough ? 2 : 1); pr++) {
+        Case c; c.g = b; c.g.attr = ((bi + pr) % 2) ? patternAttr(b.n) : std::string(b.n, '0');
+        c.x.perm = perms[(bi + pr) % perms.size()]; c.x.ids = int((bi + pr) % NIDSETS); c.x.eo = eos[(bi / 2 + pr) % eos.size()]; c.x.vo = int((bi / 3 + pr) % 2);
+        int nev = b.n + (int)b.e.size();
+        c.kind = 'H';
+        for (int c1 = 1; c1 < nev; c1++) {
+          for (char q1 : Q) for (char q2 : Q) { c.cuts = {c1}; c.q = std::string() + q1 + q2; push(c); }
+          if (thorough)
+            for (int c2 = c1 + 1; c2 < nev; c2++)
+              for (char q1 : Q) for (char q2 : Q) for (char q3 : Q) { c.cuts = {c1, c2}; c.q = std::string() + q1 + q2 + q3; push(c); }
+        }
+        c.kind = 'T'; c.cuts.clear();
+        for (char o1 : OPS) for (char o2 : OPS) {
+          c.q = std::string() + o1 + o2; push(c);
+          if (thorough) for (char o3 : OPS) { c.q = std::string() + o1 + o2 + o3; push(c); }
+        }
+      }
+    }
+  }
+  famcount["HT"] = gi - g0;
 
   R.rule =
       "alphabet: every simple undirected graph on 1..5 labelled vertices (1+2+8+64+1024) and all 32768 on 6 vertices, plus " +
@@ -839,10 +1064,17 @@ int main(int argc, char **argv) {
       ". oracle: adjacency-matrix BFS hop counts (Dist labels), union-find components (decoupleIsolatedSubGraphs, breakIntoStructures, "
       "breakIntoMotifs), set equality of vertices/edges after reduceGraph+expandGraph, connected-and-no-isolated-vertex (singleNetwork BF/DF from every "
       "start, isSingleStructure), equivalence by construction for relabelled copies (isStructureEquivalent both directions, findStructureId), "
-      "inequivalence whenever the (name,mass) multisets differ, lossless partition for breakIntoSimpleMotifs. "
+      "inequivalence whenever the (name,mass) multisets differ, lossless partition for breakIntoSimpleMotifs; "
+      "reuse histories (H: one BeadStructure grown in 2 (thorough 3) stages at every cut of its construction event list, query from {isSingleStructure, "
+      "isStructureEquivalent vs fresh/self/earlier content, breakIntoStructures, copy} after every stage; T: all pairs (thorough triples) of "
+      "{findStructureId, Dist exploration from first/last vertex, decouple, reduce+expand, singleNetwork} on ONE Graph object) over all graphs on <=4 vertices "
+      "+ 8 graphs on 5..6 vertices, oracle reused object == fresh object with the same content. "
       "distinct_nontrivial = distinct (structure id, #components, #reduced edges) signatures / motif type multisets reached";
   R.assumptions.push_back("reduce/expand is compared as vertex and edge SETS (statement wording); edges returned with multiplicity > 1 are only counted (counter expand_duplicate_edge_cases)");
   R.assumptions.push_back("unreachable vertices are not required to carry or lack a Dist label; non-isomorphic graphs with equal (name,mass) multisets may be reported either way");
+  R.assumptions.push_back("reuse: findStructureId on a Graph object must equal the fresh answer when the graph is connected or no explicit Dist exploration preceded it; on a disconnected graph "
+                          "that still carries Dist labels of an earlier exploration from another component the id may differ (labels are node content) - counted, not failed; "
+                          "visitor objects are single-use (no reset in the API), their reuse is not checked");
   R.assumptions.push_back("breakIntoSimpleMotifs is only called on connected structures (its documented domain); its lossless-partition clause is this harness' reading of 'decomposition is lossless'");
 
   // Crash / hang containment: every case runs in a forked child with an alarm.  A family whose cases keep
@@ -876,8 +1108,9 @@ int main(int argc, char **argv) {
     if (o.cls) R.cls(o.cls);
     if (c.kind == 'D' && o.extra.rfind("pairs=", 0) == 0) R.counters["D_pairs_compared"] += atoll(o.extra.c_str() + 6);
     if (o.extra.find("dupedges=") != std::string::npos) R.counters["expand_duplicate_edge_cases"]++;
+    if (o.extra.find("labelleak=") != std::string::npos) R.counters["stale_dist_labels_changed_structure_id_cases_unspecified"]++;
     // a few written-out cases
-    if ((c.kind == 'G' && c.g.n >= 5 && (i % 9973) == 7) || (c.kind == 'M' && (i % 401) == 3) || (c.kind == 'A' && (i % 20011) == 5))
+    if ((c.kind == 'G' && c.g.n >= 5 && (i % 9973) == 7) || (c.kind == 'M' && (i % 401) == 3) || (c.kind == 'A' && (i % 20011) == 5) || ((c.kind == 'H' || c.kind == 'T') && (i % 5003) == 11))
       R.sample(casestr(c) + " -> " + o.extra);
   };
   bsx::contained(0, nonD, fn, on, 10);
